@@ -266,7 +266,7 @@ def gen_coqproject() -> None:
         cp.write_text(text)
 
 
-def make_all(jobs: int = 16, clean: bool = False, prop: str | None = None, dirs: list[str] | None = None) -> tuple[bool, str]:
+def make_all(jobs: int = 16, clean: bool = False, prop: str | None = None, dirs: list[str] | None = None, keep_going: bool = False) -> tuple[bool, str]:
     """Full .vo build (incremental).  Without `prop`: every theory file (MANIFEST.setup_cmd).  With `prop`: Common/ plus that
     property's directory through its own generated Makefile, so that a check depends on nothing else.  Serialised by a file lock
     so that several checks started at once do not race on the same .vo files."""
@@ -291,7 +291,7 @@ def make_all(jobs: int = 16, clean: bool = False, prop: str | None = None, dirs:
                 return False, out
         if clean:
             _run(["make", "-f", mk, "clean"], 300, cwd=COQ)
-        rc, out = _run(["timeout", "1500", "make", "-f", mk, f"-j{jobs}"], 1600, cwd=COQ)
+        rc, out = _run(["timeout", "1500", "make", "-f", mk, f"-j{jobs}"] + (["-k"] if keep_going else []), 1600, cwd=COQ)
         return rc == 0, out
 
 
